@@ -4,6 +4,7 @@ import (
 	"bytes"
 	"fmt"
 	"math/rand"
+	"strings"
 
 	"github.com/dsnet/compress/xflate/verifharness/vhlib"
 )
@@ -19,6 +20,7 @@ type wTrace struct {
 	InAfter []int64
 	OutAft  []int64
 	SinkAft []int
+	WritesAft []int // number of sink Write calls made after each op
 }
 
 func runWriter(wc wcodec, sink *faultSink, ops []wOp) (t wTrace) {
@@ -50,6 +52,7 @@ func runWriter(wc wcodec, sink *faultSink, ops []wOp) (t wTrace) {
 		t.InAfter = append(t.InAfter, in)
 		t.OutAft = append(t.OutAft, out)
 		t.SinkAft = append(t.SinkAft, sink.Buf.Len())
+		t.WritesAft = append(t.WritesAft, len(sink.Sizes))
 	}
 	return
 }
@@ -142,6 +145,37 @@ func runC13(r *vhlib.Run) {
 						if t.Panic != "" {
 							r.Violate("panic", wc.Name+": "+t.Panic, rp)
 							continue
+						}
+						// correspondence with the latch model: the calls of the schedule with the
+						// sink Write sizes observed in the fault-free run
+						if (at+kind+si)%5 == 0 || !r.Quick() {
+							args := []string{"1", fmt.Sprint(at), fmt.Sprint(kind), map[bool]string{true: "1", false: "0"}[once]}
+							prev := 0
+							for i, o := range ops {
+								k := map[byte]string{'w': "w", 'f': "f", 'c': "c"}[o.Kind]
+								var ch []string
+								for _, sz := range free.Sizes[prev:ft.WritesAft[i]] {
+									ch = append(ch, fmt.Sprint(sz))
+								}
+								prev = ft.WritesAft[i]
+								cs := "-"
+								if len(ch) > 0 {
+									cs = strings.Join(ch, ",")
+								}
+								args = append(args, fmt.Sprintf("%s:%d:%s", k, ft.Ns[i], cs))
+							}
+							var cls []string
+							for i := range ops {
+								cls = append(cls, vhlib.ErrClass(t.Errs[i]))
+							}
+							obs := strings.Join(cls, ",")
+							if once {
+								// after a once-fault the bit writer's second flush attempt may
+								// deliver more bytes within the failing call: compare classes only
+								r.Case("lwcls", args, obs)
+							} else {
+								r.Case("lw", args, fmt.Sprintf("%s|%d|%d", obs, t.OutAft[len(ops)-1], t.SinkAft[len(ops)-1]))
+							}
 						}
 						got := sink.Buf.Bytes()
 						fired := sink.Fired > 0
